@@ -223,8 +223,9 @@ func ventAlters() []alter {
 	return as
 }
 
-// classOf names the four places where the unchanged client returns a response field that no check
-// covers (known findings); any other acceptance carries class=none
+// classOf names the four places where the client returned a response field that no check covered;
+// three were closed by /repo commits 3e5b5ad and ec7862b (a recurrence is a violation), the value of
+// a resolved reference is still not proven (known finding); any other acceptance carries class=none
 func classOf(op, alteration string) string {
 	switch {
 	case (op == "VerifiedGet" || op == "VerifiedGetAt") && alteration == "Entry.Key":
